@@ -398,6 +398,8 @@ class Parser:
                 if self.at("<"):
                     self.i += 1
                     self.type_text()
+                    while self.accept(","):
+                        self.type_text()
                     self.eat(">")
                     continue
                 segs.append(self.ident())
@@ -473,6 +475,11 @@ class Parser:
             return ("let", pat, ty, e, els)
         if v == "while":
             self.i += 1
+            if self.accept("let"):
+                pat = self.pattern()
+                self.eat("=")
+                e = self.expr(nostruct=True)
+                return ("whilelet", pat, e, self.block())
             c = self.expr(nostruct=True)
             return ("while", c, self.block())
         if v == "for":
